@@ -313,7 +313,9 @@ class WsTaint:
                             if f.attr in SINK_METHODS or (f.attr in ("split", "rsplit") and n.args):
                                 self._sink(fi, n, f"{unparse(f.value)}.{f.attr}()")
                         # pattern.match(raw) / strptime(raw, fmt)
-                        if f.attr in ("match", "fullmatch", "search", "strptime") and n.args and self._is_raw(n.args[0], raw):
+                        if f.attr in ("match", "fullmatch", "search", "strptime") and n.args and self._is_raw(n.args[0], raw) or (
+                                f.attr in ("split", "sub", "findall") and not self._is_raw(f.value, raw) and n.args and self._is_raw(n.args[-1 if f.attr == "sub" else 0], raw)
+                                and not _is_ws_collapse(n)):
                             self._sink(fi, n, f"{unparse(f)}({unparse(n.args[0])})")
                     if isinstance(f, ast.Name) and f.id == "len" and n.args and self._is_raw(n.args[0], raw):
                         self._sink(fi, n, f"len({unparse(n.args[0])})")
@@ -349,6 +351,11 @@ class WsTaint:
 
     def _sink(self, fi: FuncInfo, node: ast.AST, what: str) -> None:
         self.findings.append((fi, node, what))
+
+
+def _is_ws_collapse(call: ast.Call) -> bool:
+    """re.sub(r"\\s+", "", x) / pattern.sub over whitespace is itself a normaliser, not a sink."""
+    return isinstance(call.func, ast.Attribute) and call.func.attr == "sub" and any(isinstance(a, ast.Constant) and isinstance(a.value, str) and "\\s" in a.value for a in call.args)
 
 
 def _under_array_test(fn: ast.AST, st: ast.stmt, raw: set[str]) -> bool:
@@ -408,6 +415,15 @@ def whitespace_before_lexical_sinks(ctx: Ctx) -> None:
                        msg="the value reaches this lexical sink without strip()/re.sub: a valid lexical form with surrounding whitespace is rejected "
                            "(XSD whiteSpace=collapse applies to every non-string datatype)")
     ctx.floor("registered non-str converters", n, 14)
+    # token lists: the text of a list-valued field is split into tokens before conversion
+    pv = ctx.repo.func("xsdata.formats.dataclass.parsers.utils:ParserUtils.parse_value")
+    wt = WsTaint(ctx)
+    wt.run(pv, "value")
+    splits = [c for c in calls_in(pv.node) if isinstance(c.func, ast.Attribute) and c.func.attr == "split" and unparse(c.func.value) == "value"]
+    ok = not wt.findings and bool(splits) and all(not c.args and not c.keywords for c in splits)
+    ctx.ob("parse_value: a token list is split with str.split() (any whitespace run, no empty tokens)", ok, at=pv, node=(wt.findings[0][1] if wt.findings else (splits[0] if splits else None)),
+           construct="token split", msg="leading / trailing or repeated whitespace in a list value yields empty tokens: ' 2 3 ' no longer converts to [2, 3]"
+           + ("; " + "; ".join(w for _, _, w in wt.findings) if wt.findings else ""))
 
 
 share("C09", "C09.R1", whitespace_before_lexical_sinks)
